@@ -210,4 +210,25 @@ PROPS = {
             {"name": "formats", "test": "TestFormats", "checks": {Q: 48, T: 1600}, "shards": {Q: 8, T: 16}, "timeout": {Q: 400, T: 2400}, "shrinktime": "40s"},
         ],
     },
+    "C10": {
+        "pkg": "c10", "bin": True,
+        "technique": "exhaustive enumeration of the 15 level subsets per rapid-drawn values/argv + rapid argument vectors + exhaustive "
+                     "undefined-reference positions, against precedence tables, at the binary level",
+        "level_text": "Variable x is defined at every non-empty subset of {config variables, --set, task, stage} with values in a drawn "
+                      "order; the rendered value must be the highest level's, next to a task-only variable and the built-ins Root, "
+                      "TempDir, Args, ArgsList and $ARGS (with and without `--`). Argument vectors of up to 5 words (target-like, "
+                      "k=v, -x, --set, --, -c ...) after `--` must arrive verbatim and in order and never run as targets (marker "
+                      "tasks named like every word). An undefined reference at every command position (and in dir) of 1..4-command "
+                      "tasks: commands before it ran, it and later ones did not, exit status non-zero.",
+        "level_note": "Words are shell-safe (the harness passes argv directly, no shell involved).",
+        "rule": "vars: rapid (mode, dash, <=3 words, value permutation) then all subsets; args: rapid; undefined: full enumeration. "
+                "Non-trivial = >= 2 levels present (vars); >= 2 words of which one is target-like / starts with '-' / has '=' (args); "
+                "every undefined case. Distinct = canonical JSON.",
+        "assumptions": ["TMPDIR and HOME are set by the harness per case"],
+        "parts": [
+            {"name": "vars", "test": "TestVars", "checks": {Q: 24, T: 600}, "shards": {Q: 8, T: 16}, "timeout": {Q: 400, T: 2400}},
+            {"name": "args", "test": "TestArgs", "checks": {Q: 400, T: 12000}, "shards": {Q: 6, T: 16}, "timeout": {Q: 400, T: 2400}},
+            {"name": "undefined", "test": "TestUndefined", "kind": "plain", "shards": {Q: 2, T: 2}, "timeout": {Q: 300, T: 300}},
+        ],
+    },
 }
